@@ -43,7 +43,9 @@ class Exploration:
             c = self.checks.setdefault(cid, {}); c[verdict] = c.get(verdict, 0) + 1
         self.covers.update(d['covers']); self.violations.extend(d['violations'])
         for v in d['violations']: v['harness'] = self.harness
-        if st == 'unsupported': self.unsupported[d['detail']] = self.unsupported.get(d['detail'], 0) + 1
+        if st == 'unsupported':
+            self.unsupported[d['detail']] = self.unsupported.get(d['detail'], 0) + 1
+            self.unsupported_tags = getattr(self, 'unsupported_tags', {}); self.unsupported_tags[d['detail'][:80]] = d['tags']
         if st == 'budget': self.budget_hit += 1
         self.steps += d['steps']; self.queries += d['queries']; self.solver_time += d['solver_time']; self.unknown_branches += d['unknown_branches']
         self.calls.update(d['calls'])
